@@ -272,7 +272,7 @@ func ruleHalfCloseAndFinalStatus(c *Ctx, rule string) {
 	p := c.p
 	env := p.envelopeIn("client.clientStream.CloseSend")
 	okShape := env.Fields["Trailer"].Must && !env.Fields["Trailer"].MaybeNil && env.Fields["Status"].Must && !env.Fields["Status"].MaybeNil
-	c.check(rule, "CloseSend:shape", okShape, "half-close envelope "+env.ShapeString()+" must carry a trailer and a status", p.ipos(env.Alloc))
+	c.check(rule, "CloseSend:shape", okShape, "half-close envelope "+env.ShapeString()+" must carry a trailer and a status", p.ipos(env.At()))
 	codeOK := false
 	for _, t := range env.Fields["Status"].Origins {
 		if al, ok := p.Origins().allocs[t.Name].(*ssa.Alloc); ok {
@@ -285,9 +285,9 @@ func ruleHalfCloseAndFinalStatus(c *Ctx, rule string) {
 			}
 		}
 	}
-	c.check(rule, "CloseSend:status-OK", codeOK, "half-close status code is the constant OK (0)", p.ipos(env.Alloc))
+	c.check(rule, "CloseSend:status-OK", codeOK, "half-close status code is the constant OK (0)", p.ipos(env.At()))
 	ws := p.transportOps(p.MustFn("client.clientStream.CloseSend"), "Write", false)
-	c.check(rule, "CloseSend:written", len(ws) == 1 && p.sameValue(ws[0].Call.Args[1], env.Alloc), "the half-close envelope is what is written", p.ipos(env.Alloc))
+	c.check(rule, "CloseSend:written", len(ws) == 1 && p.sameValue(ws[0].Call.Args[1], env.Root()), "the half-close envelope is what is written", p.ipos(env.At()))
 
 	rs := p.MustFn("goat.handler.runStream")
 	var hsites []ssa.Instruction
@@ -459,7 +459,7 @@ func ruleStatusIffFailed(c *Ctx, rule string) {
 		c.check(rule, "processUnaryRpc:handler-error⇒status", bad == nil, "every path with a non-nil handler error attaches a status", p.ipos(al))
 	}
 	c.floor(rule, "status attachments in processUnaryRpc", n, 1)
-	c.check(rule, "processUnaryRpc:status-stored", len(env.Fields["Status"].Stores) == 1 && env.Fields["Status"].Must, "the reply envelope's Status field is set from that variable", p.ipos(env.Alloc))
+	c.check(rule, "processUnaryRpc:status-stored", len(env.Fields["Status"].Stores) == 1 && env.Fields["Status"].Must, "the reply envelope's Status field is set from that variable", p.ipos(env.At()))
 	// stream: SendTrailer's argument is the handler's / interceptor's result
 	rs := p.MustFn("goat.handler.runStream")
 	for _, ci := range p.callsTo(rs, "server.serverStream.SendTrailer", false) {
@@ -625,7 +625,7 @@ func ruleStreamPayloadProvenance(c *Ctx, rule string) {
 		for _, t := range env.Fields["Body"].Origins {
 			al, ok := e.allocs[t.Name].(*ssa.Alloc)
 			if !ok || t.Op != "alloc" {
-				c.check(rule, fk+":body-literal", false, "Body is not a local literal: "+t.String(), p.ipos(env.Alloc))
+				c.check(rule, fk+":body-literal", false, "Body is not a local literal: "+t.String(), p.ipos(env.At()))
 				continue
 			}
 			for _, s := range p.allocFieldStores(al, "Data") {
@@ -652,7 +652,7 @@ func ruleStreamPayloadProvenance(c *Ctx, rule string) {
 		}
 		// the envelope written is the one built
 		ws := p.transportOps(f, "Write", false)
-		okW := len(ws) == 1 && p.sameValue(ws[0].Call.Args[1], env.Alloc)
-		c.check(rule, fk+":writes-the-envelope-built", okW, "the envelope handed to the transport is the one carrying that body", p.ipos(env.Alloc))
+		okW := len(ws) == 1 && p.sameValue(ws[0].Call.Args[1], env.Root())
+		c.check(rule, fk+":writes-the-envelope-built", okW, "the envelope handed to the transport is the one carrying that body", p.ipos(env.At()))
 	}
 }
